@@ -226,11 +226,25 @@ theorem c01_fin_progress (id : Nat) (ops : List Op) (hw : WF (init id) ops)
 
    What is MISSING for the temporal statement:
    * the formalisation of infinite fair runs and the induction on the measure;
-   * that loss detection / PTO (recovery.py `_detect_loss`,
-     `on_loss_detection_timeout`, connection.py `_send_probe`) eventually reports
-     an undelivered outstanding frame LOST — this is what establishes the
-     hypothesis "the missing byte is the first pending one" (C08 proves each
-     packet is reported at most once, not that it is eventually reported);
+   * that loss detection / PTO eventually reports an undelivered outstanding
+     frame LOST (what establishes "the missing byte is the first pending one" /
+     `outstanding = []`): NOW PROVED for the recovery model in AQ.Props.C01Loss —
+     `loss_on_ack_complete` (an ACK newly acknowledging a packet reports every
+     other tracked packet 3 or more below `largest_acked_packet`, or sent at or
+     before `now − loss_delay`, LOST exactly once), `loss_survivor_arms_timer`
+     (a survivor below the largest acknowledged sets `loss_time`, so
+     `get_loss_detection_time` is a deadline), `loss_timeout_runs_detect`,
+     `loss_time_is_deadline`, `loss_timer_fires` (the timer runs `_detect_loss`;
+     a survivor past `sent_time + loss_delay` is reported — order facts of the
+     arithmetic as hypotheses), `pto_deadline`, `pto_fires` (no loss time: a PTO
+     deadline exists, the timeout bumps `pto_count`, reschedules CRYPTO data and
+     requests a probe whose ACK triggers `loss_on_ack_complete`), `reports_once`
+     (packet reports → `ackFrame` / `loseFrame` steps, each frame at most once).
+     What is still NOT proved: that an ACK or the timer call actually happens
+     (network fairness, the event loop calling `handle_timer` at
+     `get_timer()`), that the registered delivery handlers are this model's
+     `ackFrame` / `loseFrame` (checked by the correspondence of checks/c01.py),
+     and the composition over an infinite run;
    * that the stream loop eventually serves the stream with enough builder
      space and flow-control credit (congestion window, pacing, MAX_DATA /
      MAX_STREAM_DATA updates from the peer: C06/C07/C08/C13);
